@@ -47,7 +47,7 @@ func TestCorpusStats(t *testing.T) {
 		entries++
 		switch target {
 		case "FuzzValidFrame":
-			if p, err := ref.DecodeStrict(data); err == nil {
+			if p, remarks, err := ref.DecodePedantic(data); err == nil && len(remarks) == 0 {
 				inDomain++
 				kinds[typeName(p.Type)]++
 			}
